@@ -180,7 +180,7 @@ Lemma should_log_true ev q : should_log ev q = true ->
   qlog_client_ignored (e_ix ev) (e_dhcp ev) (ids_of q) = false /\
   (q_any q = true -> e_refuse_any ev = false).
 Proof.
-  unfold should_log. rewrite !andb_true_iff, !negb_true_iff. intros [[H1 H2] H3].
+  unfold should_log. rewrite !andb_true_iff, !negb_true_iff. intros [[[H0 H1] H2] H3].
   repeat split; auto. intros Ha. rewrite Ha in H1. exact H1.
 Qed.
 
@@ -330,7 +330,7 @@ Definition wit_ix : index :=
   run [OAdd (wit_client 1 [98] [] [([192;168;1;0], 24)] [] true true);
        OAdd (wit_client 2 [97] [] [] [wit_mac] false false)] empty_index.
 Definition wit_env (anon : bool) : env :=
-  {| e_ix := wit_ix; e_dhcp := fun _ => None; e_anon := anon; e_refuse_any := false;
+  {| e_ix := wit_ix; e_dhcp := fun _ => None; e_anon := anon; e_qlog_enabled := true; e_refuse_any := false;
      e_qign := fun _ => false; e_sign := fun _ => false |}.
 Definition wit_query (cid : bytes) (mac : option bytes) : query :=
   {| q_name := [111;107;46]; q_any := false; q_addr := ([192;168;1;5], []); q_cid := cid; q_cid_mac := mac |}.
@@ -370,3 +370,29 @@ Proof. split; vm_compute; reflexivity. Qed.
 
 Lemma addresses_masked ip : masked (anonymize ip) /\ length (anonymize ip) = length ip.
 Proof. split; [exact (anonymize_masked ip)|exact (anonymize_length ip)]. Qed.
+
+(** * Configured anonymisation and the shared mutator never diverge *)
+Definition in_sync (c : qconf) : Prop := qc_mut c = qc_anon c.
+
+Lemma conf_step_in_sync c o : in_sync c -> in_sync (conf_step c o).
+Proof.
+  unfold in_sync. destruct o as [e a|e a]; cbn; [reflexivity|]. destruct a; auto.
+Qed.
+
+Lemma conf_always_in_sync enabled anon ops :
+  in_sync (fold_left conf_step ops (conf_init enabled anon)).
+Proof.
+  assert (H : forall c, in_sync c -> in_sync (fold_left conf_step ops c)).
+  { induction ops as [|o ops IH]; cbn; intros c Hc; [assumption|]. apply IH, conf_step_in_sync, Hc. }
+  apply H. reflexivity.
+Qed.
+
+(** Hence: whenever anonymisation is CONFIGURED on, a recorded address is masked. *)
+Lemma configured_anon_masks enabled anon ops ev q :
+  let c := fold_left conf_step ops (conf_init enabled anon) in
+  e_anon ev = qc_mut c -> qc_anon c = true ->
+  recorded_ip ev q = anonymize (fst (q_addr q)) /\ masked (recorded_ip ev q).
+Proof.
+  intros c Hm Ha. pose proof (conf_always_in_sync enabled anon ops) as Hs. unfold in_sync in Hs.
+  fold c in Hs. unfold recorded_ip. rewrite Hm, Hs, Ha. split; [reflexivity|apply anonymize_masked].
+Qed.
